@@ -320,7 +320,8 @@ func controlConds(b *ssa.BasicBlock) []ssa.Value {
 		}
 		in := 0
 		for _, s := range d.Succs {
-			if s == b || s.Dominates(b) {
+			// s is an arm of this branch only if it is entered solely from it
+			if len(s.Preds) == 1 && (s == b || s.Dominates(b)) {
 				in++
 			}
 		}
